@@ -16,6 +16,8 @@ def _lemma_worker(args):
 
 
 def run(prop, modname, mods, kernels=False, c02_mods=(), note="", extra_assumptions=(), post=None, extra_jobs=()):
+    import time
+    t_start = time.time()
     mod = importlib.import_module(modname)
     lemma_args = [(modname, i) for i in range(len(mod.LEMMAS))]
     lres = C.pool_map(_lemma_worker, lemma_args)
@@ -31,7 +33,7 @@ def run(prop, modname, mods, kernels=False, c02_mods=(), note="", extra_assumpti
         for o in r["obligations"]:
             o["id"] = o["id"].replace("C02/", f"{prop}/def:", 1)
     return enginea_prop.run(prop, jobs, f"DESIGN 4/{prop}", extra_assumptions=extra_assumptions, functions_note=note,
-                            extra_results=lres + c02res, post=post)
+                            extra_results=lres + c02res, post=post, t_start=t_start)
 
 
 PK_FILTER = {}
